@@ -15,6 +15,7 @@ from mc.oracles import kekule, roundtrip, smiread
 from mc.runner import Result, h64
 
 PROPERTY = "C05"
+CURRENT = None        # last input handed to the implementation (reported if a shard hits the task watchdog)
 RULE = ("seam 1: state = labelled graph (edge set), enumerated completely by backtracking over the edge list under the "
         "degree bounds; seam 2: state = written form / DFS spelling of an aromatic system; every state is evaluated on "
         "the implementation; non-trivial = distinct graphs with a perfect matching + distinct accepted SELFIES strings")
@@ -109,6 +110,8 @@ def check_graph(adj, r, fpm, rotations=False):
         r.evaluations += 1
         r.transitions += 1
         arg = [list(a) for a in g]
+        global CURRENT
+        CURRENT = ("find_perfect_matching", g)
         try:
             got = fpm(arg)
         except Exception as e:
@@ -219,6 +222,8 @@ def check_smiles(smi, r, tag=None):
     if tag:
         case["family"] = tag
     use(RELAXED)
+    global CURRENT
+    CURRENT = ("encoder", smi)
     try:
         x = _SF.encoder(smi, strict=False)
         got = "accept"
@@ -388,7 +393,7 @@ def plan(tier, seed):
         for k in (1, 2, 3):
             for nb0 in itertools.combinations(others, k):
                 tasks.append(("matching/all-graphs-n<=8", ("graphs", n, nb0, thorough)))
-    nc, kc = (16, 4) if thorough else (12, 3)
+    nc, kc = (16, 4) if thorough else (12, 4)
     scopes.append({"name": "matching/chain+chords", "n": "4..%d (even)" % nc, "chords": "every set of <= %d" % kc,
                    "degree": "<= 3"})
     for n in range(4, nc + 1, 2):
